@@ -271,6 +271,100 @@ fn hours_of_day(n: i64, log: &mut Log) {
   }
 }
 
+/// the lunar day handed out by an hour that has already answered hour-level questions gives the same day-level
+/// almanac as a freshly built day of the same civil date (23:30, midnight, a random hour; on Jie days also the
+/// seconds around the term instant): the day's cycles turn with the civil day, not with the hour's pillars
+fn day_via_hour(n: i64, seed: u64, log: &mut Log) {
+  use tyme4rs::tyme::Culture;
+  let t = terms();
+  let mut rng = Rng::new(mix(seed, n as u64 ^ 0x2C17));
+  let mut times: Vec<i64> = vec![n * 86400 + 23 * 3600 + rng.range(0, 3599), n * 86400 + rng.range(0, 3599), n * 86400 + rng.range(3600, 23 * 3600 - 1)];
+  if let Some(g) = t.governing_day(n) {
+    for k in [g, g + 1] {
+      if k < t.v.len() && t.v[k].dn == n && t.v[k].i % 2 == 1 {
+        let js = t.v[k].sec;
+        if js - 5 >= n * 86400 {
+          times.push(rng.range(n * 86400, js - 5));
+        }
+        if js + 5 < (n + 1) * 86400 {
+          times.push(rng.range(js + 5, (n + 1) * 86400 - 1));
+        }
+        log.count("via_hour.jie_days", 1);
+      }
+    }
+  }
+  type DayT = (Vec<i64>, Vec<String>, Option<i64>);
+  #[allow(deprecated)]
+  let tuple = |d: &tyme4rs::tyme::lunar::LunarDay| -> DayT {
+    let scd = d.get_sixty_cycle_day();
+    (
+      vec![
+        d.get_twenty_eight_star().get_index() as i64,
+        d.get_duty().get_index() as i64,
+        d.get_twelve_star().get_index() as i64,
+        d.get_nine_star().get_index() as i64,
+        d.get_six_star().get_index() as i64,
+        d.get_sixty_cycle().get_index() as i64,
+        d.get_month_sixty_cycle().get_index() as i64,
+        d.get_year_sixty_cycle().get_index() as i64,
+        d.get_jupiter_direction().get_index() as i64,
+        d.get_minor_ren().get_index() as i64,
+        scd.get_sixty_cycle().get_index() as i64,
+        scd.get_month().get_index() as i64,
+        scd.get_year().get_index() as i64,
+        scd.get_duty().get_index() as i64,
+        scd.get_twenty_eight_star().get_index() as i64,
+      ],
+      vec![format!("{}", d.get_fetus_day()), d.get_gods().iter().map(|g| g.get_name()).collect::<Vec<_>>().join(","), d.get_recommends().iter().map(|g| g.get_name()).collect::<Vec<_>>().join(","), d.get_avoids().iter().map(|g| g.get_name()).collect::<Vec<_>>().join(",")],
+      dn_of(&d.get_solar_day()),
+    )
+  };
+  for (j, a) in times.iter().enumerate() {
+    let a = *a;
+    let warm = (rng.below(5) as u64 + j as u64) % 5;
+    let key = || format!("{}_warm{}", fmt_abs(a), warm);
+    log.ev(1);
+    log.count("via_hour.days_compared", 1);
+    if a.rem_euclid(86400) >= 23 * 3600 {
+      log.count("via_hour.late_zi_hours", 1);
+    }
+    let r = guard(|| {
+      let lh = st_of_abs(a).get_lunar_hour();
+      match warm {
+        0 => {
+          let _ = lh.get_sixty_cycle_hour();
+        }
+        1 => {
+          let _ = lh.get_twelve_star();
+          let _ = lh.get_nine_star();
+        }
+        2 => {
+          let _ = lh.get_eight_char();
+          let _ = lh.get_recommends();
+        }
+        3 => {
+          let _ = lh.get_sixty_cycle_hour().get_sixty_cycle_day();
+          let _ = lh.get_avoids();
+        }
+        _ => {}
+      }
+      let via = tuple(&lh.get_lunar_day());
+      // and through the instant-level view's own day (its solar day is the civil day)
+      let via2 = dn_of(&lh.get_sixty_cycle_hour().get_sixty_cycle_day().get_solar_day());
+      let fresh = tuple(&sd_of_dn(n).get_lunar_day());
+      (via, fresh, via2)
+    });
+    match r {
+      Ok((via, fresh, via2)) => {
+        if via != fresh || via.2 != Some(n) || via2 != Some(n) {
+          log.violate(format!("C17/day-via-hour/{}", key()), "day almanac of hour.get_lunar_day() after hour-level queries", key(), format!("{:?} (instant view's day {:?})", via, via2), format!("{:?}", fresh));
+        }
+      }
+      Err(msg) => log.violate(format!("C17/day-via-hour/{}", key()), "day almanac of hour.get_lunar_day() after hour-level queries", key(), format!("panic: {}", msg), "no panic".into()),
+    }
+  }
+}
+
 fn year_and_month_stars(y: i64, log: &mut Log) {
   log.ev(2);
   let key = format!("{:05}", y);
@@ -374,6 +468,17 @@ pub fn run(cfg: &Cfg) -> (Log, Meta) {
     }
     l.nt_distinct(n as u64);
     hours_of_day(n, l);
+    // the same day, or (every third draw) a Jie day of the year, through an hour that was queried first
+    let nv = if i % 3 == 0 {
+      let tt = terms();
+      let y = c.date(n).0;
+      tt.get(y, 2 * rng.range(0, 11) + 1).dn
+    } else {
+      n
+    };
+    if !cal::reform_era_day(nv) {
+      day_via_hour(nv, cfg.seed, l);
+    }
   }));
   log.merge(par_range(10001, 64, |i, l| year_and_month_stars(i as i64 - 1, l)));
   log.floor("day.jie_days_where_the_officer_repeats", cfg.tier.pick(5_000, 100_000));
@@ -381,12 +486,15 @@ pub fn run(cfg: &Cfg) -> (Log, Meta) {
   log.floor("day.nine_star_turning_days", cfg.tier.pick(500, 10_000));
   log.floor("six.leap_month_days", cfg.tier.pick(3_000, 90_000));
   log.floor("hour.double_hours", cfg.tier.pick(40_000, 4_000_000));
+  log.floor("via_hour.days_compared", cfg.tier.pick(12_000, 1_200_000));
+  log.floor("via_hour.late_zi_hours", cfg.tier.pick(4_000, 400_000));
+  log.floor("via_hour.jie_days", cfg.tier.pick(1_000, 100_000));
   log.floor("hour.days_after_the_december_solstice", cfg.tier.pick(100, 10_000));
   log.floor("year.year_stars", 10_001);
   log.floor("year.month_stars", 120_000);
   let meta = Meta {
     rule: format!(
-      "day series on every civil date of {} years{}: officer = (day branch - month branch) mod 12, Yellow/Black-path spirit from the month-branch group, mansion = (N+11) mod 28 with +1 per day and luminary = weekday, day nine star from the Jiazi days nearest the solstices, six-day star, phase, minor Ren, each by both routes where two exist, plus officer / spirit / mansion / six-day star read from yesterday's (memo-filled) lunar date stepped by one day; one-step-per-day continuity of the day nine star; every leap-month day of {} lunar years (six-day star with the month's own number, equal to the regular twin); the 12 double-hours (hours 0,1,3..21) of {} seeded days (1/5 within -3..+12 days of a solstice): hour nine star, hour spirit, hour minor Ren by both routes; year star of every year -1..9999 and month stars of all 12 months of every sexagenary year 0..9999 (covers all 12 x 12 year-branch/month pairs), lunar-month stars in years without a leap month. Non-trivial = Jie days, nine-star turning days, leap-month days, distinct sampled days.",
+      "day series on every civil date of {} years{}: officer = (day branch - month branch) mod 12, Yellow/Black-path spirit from the month-branch group, mansion = (N+11) mod 28 with +1 per day and luminary = weekday, day nine star from the Jiazi days nearest the solstices, six-day star, phase, minor Ren, each by both routes where two exist, plus officer / spirit / mansion / six-day star read from yesterday's (memo-filled) lunar date stepped by one day; one-step-per-day continuity of the day nine star; every leap-month day of {} lunar years (six-day star with the month's own number, equal to the regular twin); the 12 double-hours (hours 0,1,3..21) of {} seeded days (1/5 within -3..+12 days of a solstice): hour nine star, hour spirit, hour minor Ren by both routes; on the same draws (every third one moved to a Jie day of the year) the day almanac (15 cycle indices by both routes, fetus, gods, recommends, avoids, civil day) of hour.get_lunar_day() taken after a drawn subset of hour-level getters at 23:xx, 00:xx, a random hour and both sides of the Jie instant, against a freshly built day of the same civil date; year star of every year -1..9999 and month stars of all 12 months of every sexagenary year 0..9999 (covers all 12 x 12 year-branch/month pairs), lunar-month stars in years without a leap month. Non-trivial = Jie days, nine-star turning days, leap-month days, distinct sampled days.",
       years.len(),
       match cfg.tier {
         Tier::Thorough => " (1..9998, exhaustive)",
